@@ -362,6 +362,14 @@ func c10Run(p *harness.Proxy, binary bool, port int, prog c10Program, tier int, 
 			return res
 		}
 		if errors.Is(err, wire.ErrWatchdog) {
+			// second chance on a loaded machine: keep listening; bytes or a close arriving now
+			// mean "slow", not "never"
+			cl.Conn.SetReadDeadline(time.Now().Add(15 * time.Second))
+			if _, perr := cl.R.Peek(1); perr == nil || !errors.Is(mapTimeout(perr), wire.ErrWatchdog) {
+				res.Inconcl = "reply arrived only after the watchdog (slow machine?)"
+				res.Restart = true
+				return res
+			}
 			// decide from state: the backends are idle, nothing can unblock the request
 			pend := p.L1.Pending() + p.L2.Pending()
 			dump := p.GoroutineDumpKill()
@@ -627,4 +635,13 @@ func faultClass(f fakemc.Fault) string {
 		return "close mid-reply"
 	}
 	return "fault"
+}
+
+// mapTimeout turns a network timeout into wire.ErrWatchdog.
+func mapTimeout(err error) error {
+	var ne interface{ Timeout() bool }
+	if errors.As(err, &ne) && ne.Timeout() {
+		return wire.ErrWatchdog
+	}
+	return err
 }
